@@ -233,6 +233,7 @@ class ImplRunner:
         self.outbox[i] = []
         self.gens[i] = []
         runner = self
+        tx_cost = int(op.get('tx_cost_ns', 0))
 
         def rxfn(timeout=0.0):
             box = runner.inbox[i]
@@ -255,6 +256,8 @@ class ImplRunner:
             else:
                 runner.outbox[i].append(m)
             runner.ev(i, 'tx@%d:%s' % (CLOCK.ns, runner.fmt_msg(m)))
+            # a CAN driver that takes time to accept a frame (judge-only scenarios, flagged no_model: the model's passes take no time)
+            CLOCK.ns += tx_cost
 
         def err(e):
             runner.ev(i, 'err@%d:%s' % (CLOCK.ns, type(e).__name__))
